@@ -58,6 +58,8 @@ case_st = st.fixed_dictionaries({
     "one_bin": st.sampled_from([False, False, False, True]),
     "layers": st.lists(st.fixed_dictionaries({"op": st.sampled_from([None, "sum", "mean"]),
                                               "as_layer": st.booleans(),
+                                              # a colour norm on the layer: how it would be drawn, not what is binned
+                                              "norm": st.sampled_from([None, None, None, "log"]),
                                               # the layer is a component (.x/.y/.z) of a Layer that holds a Vector
                                               "component": st.sampled_from([None, None, None, "x", "y", "z"]),
                                               "same_as_prev": st.sampled_from([False, False, True])}), max_size=3),
@@ -274,12 +276,16 @@ def binning(case, r):
             c = spec["component"]
             oth = osyris.Array(values=np.zeros_like(np.asarray(v, dtype=np.float64)), unit="K")
             vec = osyris.Vector(**{k: (arr if k == c else oth) for k in "xyz"}, name="lay")
-            vl = Layer(vec, operation=spec["op"]) if spec["op"] else Layer(vec)
+            lkw = {"norm": spec["norm"]} if spec.get("norm") else {}
+            vl = Layer(vec, operation=spec["op"], **lkw) if spec["op"] else Layer(vec, **lkw)
             layers.append(getattr(vl, c))
             eff_ops.append(spec["op"] or case["call_op"] or "sum")
             r.label("layer_is_vector_component")
         elif spec["as_layer"]:
-            layers.append(Layer(arr, operation=spec["op"]) if spec["op"] else Layer(arr))
+            lkw = {"norm": spec["norm"]} if spec.get("norm") else {}
+            if lkw:
+                r.label("layer_with_log_norm")
+            layers.append(Layer(arr, operation=spec["op"], **lkw) if spec["op"] else Layer(arr, **lkw))
             eff_ops.append(spec["op"] or case["call_op"] or "sum")
         else:
             layers.append(arr)
